@@ -222,6 +222,7 @@ def p1_ideal_check(p):
         for _ in range(k):
             ident = rnd.choice([b"/AUX5UXXXXXXXXXXXXXXX", b"/KFM5KAIFA-METER", b"/ADN9 6534", b"/ABC5"]); eol = rnd.choice([b"\r\n", b"\n"])
             lines = [rnd.choice([b"1-0:1.8.0(00006678.394*kWh)", b"0-0:1.0.0(210217184019W)", b"1-0:32.7.0(240.3*V)", b"", b"x y"]) for _ in range(rnd.randrange(0, 25))]
+            if rnd.random() < 0.15: lines.insert(rnd.randrange(len(lines) + 1), b"0-0:96.13.0(" + b"4B" * rnd.choice([90, 128, 500, 1024, 2000]) + b")")      # long lines (text messages)
             body = ident + eol + eol + b"".join(l + eol for l in lines) + b"!"
             ros.append(body + ((b"%04X" % sp.crc16_arc(body)) if rnd.random() < 0.85 else b"") + eol)
         tail = rnd.choice([b"", b"", b"7.0(240.3*V)\r\n!ABCD\r\n", b"\r\n", b"0-0:96.1.1(4B38)\r\n"])
